@@ -48,7 +48,12 @@ ASSUMPTIONS = [
     "hypotheses of roundtrip_with_masking_partial (class default of a float attribute is NaN, of a string attribute "
     "'') and of minus_one_preserved (float32(-1) == -1) are checked on the real classes at the start of every run",
 ]
-TRUSTED = ["hand model Aegean/Model/C18.lean of catalogs.py / models.classify_catalog, tied by this correspondence"]
+TRUSTED = ["hand model Aegean/Model/C18.lean of catalogs.py / models.classify_catalog, tied by this correspondence",
+           "Gen.C18.fitsLetter/fitsWidth (writeFITSTable column decision incl. FITSTableType), sqlCode (writeDB.sqlTypes), "
+           "classifyWhich (classify_catalog isinstance chain): regenerated from the tree under test by "
+           "translator/targets/C18.py (slicer) + py2lean.py, validated each run against the Python slices on the full "
+           "tag grid; Properties/C18.lean proves the assembled decisions equal the model's (gen_column_decision, "
+           "gen_sql_type, gen_classify_eq)"]
 PARTIAL = [
     "roundtrip_with_masking_partial: proved — table_to_source_list inverts the table construction, also when the "
     "reader masks NaN / empty cells; sampled — that astropy's and sqlite3's writers+readers reproduce each cell "
@@ -1100,9 +1105,72 @@ def check_hypotheses(ctx):
     ctx.extra['names_lengths'] = names_model
 
 
+def check_generated(ctx):
+    """translator self-validation: the regenerated tables (driver ops `gen …`) against the Python slices they were
+    translated from, on the full grid of tags, and against the real classify_catalog"""
+    if not ctx.driver_ok:
+        return
+    import importlib.util
+    import sys
+    sys.path.insert(0, os.path.join(common.VERIF, 'translator'))
+    try:
+        spec = importlib.util.spec_from_file_location('targets_C18_probe', os.path.join(common.VERIF, 'translator', 'targets', 'C18.py'))
+        tmod = importlib.util.module_from_spec(spec)
+        spec.loader.exec_module(tmod)
+        text = open(tmod.SLICE_FILE).read()
+    except Exception as e:
+        ctx.note(f"slices unavailable for self-validation: {e!r}")
+        return
+    ctx.extra['slice_file_sha'] = os.path.basename(tmod.SLICE_FILE)
+    status = ctx.extra.get('translator') or {}
+    ns = {}
+    try:
+        exec(text.replace('    return letter\n', '    return (letter, width)\n'), ns)
+    except Exception as e:
+        ctx.note(f"slices do not execute: {e!r}")
+        return
+    lines, want = [], []
+    if status.get('fitsLetter') == 'translated' and status.get('fitsWidth') == 'translated':
+        for is_err in (0, 1):
+            for is_uuid in (0, 1):
+                for kind in range(7):
+                    for maxlen in (0, 1, 7, 36):
+                        for t in range(5):
+                            for vlen in (0, 3, 11):
+                                lines.append(f"gen fits {is_err} {is_uuid} {kind} {maxlen} {t} {vlen}")
+                                a, b = ns['fits_col'](is_err, is_uuid, kind, maxlen, t, vlen)
+                                want.append(f"{a} {b}")
+    if status.get('sqlCode') == 'translated':
+        for t in range(6):
+            lines.append(f"gen sql {t}")
+            want.append(str(ns['sql_type'](t)))
+    if status.get('classifyWhich') == 'translated':
+        for c in range(5):
+            lines.append(f"gen cls {c}")
+            want.append(str(ns['classify_which'](c)))
+    outs = ctx.driver.batch(lines)
+    bad = [(l, o, w) for l, o, w in zip(lines, outs, want) if o != w]
+    ctx.count('generated-table-entries-validated', len(lines) - len(bad))
+    for l, o, w in bad[:3]:
+        ctx.fail('corr', dict(op=l), f"translator self-validation: `{l}` Lean {o}, Python slice {w}",
+                 dict(site='translator', what='self-validation'))
+    # the regenerated classify table against the real function on one object of every class
+    from AegeanTools.models import classify_catalog
+    cl = classes()
+    objs = {0: object(), 1: cl['S'](), 2: cl['I'](), 3: cl['C']()}
+    outs = ctx.driver.batch([f"gen cls {c}" for c in objs])
+    for (c, o), ans in zip(objs.items(), outs):
+        got = [k + 1 for k, lst in enumerate(classify_catalog([o])) if len(lst)]
+        real = got[0] if len(got) == 1 else 0
+        if str(real) != ans or len(got) > 1:
+            ctx.fail('corr', dict(cls=c), f"classify_catalog puts class code {c} into list(s) {got}, regenerated table says {ans}",
+                     dict(site='model', what='classify-table'))
+
+
 def run(ctx):
     common.use_repo()
     check_hypotheses(ctx)
+    check_generated(ctx)
     run_cases(ctx, corpus_cases())
     run_cases(ctx, corpus_histories())
     run_cases(ctx, debug_cases())
